@@ -57,7 +57,12 @@ impl UnaryOp {
 
     pub fn evaluate(&self, value: Value) -> Result<Value, TracedInterpreterError> {
         match self {
-            UnaryOp::Positive => Ok(value),
+            UnaryOp::Positive => {
+                // Like unary minus (and like the static analyzer), unary plus is
+                // only defined on numbers: `+"HI"` is a type mismatch.
+                let number: f64 = value.try_into()?;
+                Ok(number.into())
+            }
             UnaryOp::Negative => {
                 let number: f64 = -value.try_into()?;
                 Ok(number.into())
